@@ -25,7 +25,7 @@ class Check:
     technique = "TLA+ specification as oracle; TLC trace validation of recorded executions of the real code"
     design_ref = "DESIGN.md section 3"
     harness_timeout = 900
-    tlc_timeout = 1700
+    tlc_timeout = 900
 
     def groups(self, tier, seed):
         raise NotImplementedError
